@@ -352,7 +352,7 @@ M("c19-exponent-unbounded", ["C19"], [(RP, "        exponent = min(retry_number,
 M("c19-no-lower-clamp", ["C19"], [(RP, "return timedelta(seconds=max(min_backoff, backoff))", "return timedelta(seconds=backoff)")], "R-C19-BACKOFF")
 M("c19-overdue-ge", ["C19", "C12"], [(PAR, "return datetime.now(tz=self.timestamp.tzinfo) > self.timestamp + self.ttl", "return datetime.now(tz=self.timestamp.tzinfo) >= self.timestamp + self.ttl")], None)
 M("c19-job-overdue-timestamp-only", ["C19", "C12"], [("repid/job.py", "return datetime.now(tz=self.timestamp.tzinfo) > self.timestamp + self.ttl", "return datetime.now(tz=self.timestamp.tzinfo) > self.timestamp")], None)
-M("c19-period-no-plus-one", ["C19", "C06"], [(PAR, "defer_by_times = (now - self.timestamp) // self.delay.defer_by + 1", "defer_by_times = (now - self.timestamp) // self.delay.defer_by")], "R-C19-PERIOD")
+M("c19-period-no-plus-one", ["C19"], [(PAR, "defer_by_times = (now - self.timestamp) // self.delay.defer_by + 1", "defer_by_times = (now - self.timestamp) // self.delay.defer_by")], "R-C19-PERIOD")
 R("c19-r-backoff-inline", ["C19"], [(RP, '''        exponent = min(retry_number, max_exponent)
         backoff = min(multiplier * 2**exponent, max_backoff)
         return timedelta(seconds=max(min_backoff, backoff))''', '''        return timedelta(seconds=max(min(max_backoff, 2 ** min(max_exponent, retry_number) * multiplier), min_backoff))''')])
@@ -401,4 +401,37 @@ R("c20-r-stop-without-wait_for", ["C20"], [(WK, '''                await asyncio
                     timeout=self.graceful_health_check_server_finish_time,
                 )
 ''', '''                await self.health_check_server.stop()
+''')])
+
+# ----------------------------------------------------------------------------------------------- C08
+CONV = "repid/converter.py"
+M("c08-pydantic-empty-fix-reverted", ["C08"], [(CONV, 'self.input_pydantic_model.model_validate_json(data or "{}")', "self.input_pydantic_model.model_validate_json(data)")], "R-C08-EMPTY")
+M("c08-pydantic-v1-empty-fix-reverted", ["C08"], [(CONV, 'self.input_pydantic_model.parse_raw(data or "{}")', "self.input_pydantic_model.parse_raw(data)")], "R-C08-EMPTY")
+M("c08-basic-sentinel-fix-reverted", ["C08"], [(CONV, '''        for name, value in (*zip(self.args, args), *kwargs.items()):
+            if value is inspect.Parameter.empty:
+                raise ValueError(f"Missing argument '{name}' which has no default value.")
+''', "")], "R-C08-SENTINEL")
+M("c08-basic-sentinel-kwargs-only", ["C08"], [(CONV, "for name, value in (*zip(self.args, args), *kwargs.items()):", "for name, value in kwargs.items():")], "R-C08-SENTINEL")
+M("c08-basic-empty-guard-dropped", ["C08"], [(CONV, "        if not data:\n            return ([], {})\n", "")], "R-C08-EMPTY")
+M("c08-basic-var-keyword-ignored", ["C08"], [(CONV, '''            elif p.kind == inspect.Parameter.VAR_POSITIONAL:
+                self.all_args = True
+            elif p.kind == inspect.Parameter.VAR_KEYWORD:
+                self.all_kwargs = True
+''', '''            elif p.kind == inspect.Parameter.VAR_POSITIONAL:
+                self.all_args = True
+''')], "R-C08-KINDS")
+M("c08-pydantic-field-default-none", ["C08"], [(CONV, "p.default if p.default is not inspect.Parameter.empty else Field(),", "p.default if p.default is not inspect.Parameter.empty else None,")], "R-C08-SENTINEL")
+M("c08-extras-always-to-kwargs", ["C08"], [(CONV, "        if self.all_kwargs:\n            kwargs.update(loaded)", "        if self.all_kwargs or loaded:\n            kwargs.update(loaded)")], "R-C08-ALIGN")
+M("c08-default-converter-order", ["C08"], [(CONV, '''        if is_installed("pydantic", ">=2.0.0,<3.0.0"):
+            return PydanticConverter(fn)
+        if is_installed("pydantic", ">=1.0.0,<2.0.0"):
+            return PydanticV1Converter(fn)''', '''        if is_installed("pydantic", ">=2.0.0,<3.0.0"):
+            return PydanticV1Converter(fn)
+        if is_installed("pydantic", ">=1.0.0,<2.0.0"):
+            return PydanticConverter(fn)''')], "R-C08-CALL")
+M("c08-actor-gets-raw-payload", ["C08", "C07"], [(PROC, "result = await self.actor_run(actor, key, parameters, raw_payload, self._conn)", "result = await self.actor_run(actor, key, parameters, payload, self._conn)")], None)
+R("c08-r-pydantic-explicit-guard", ["C08"], [(CONV, '''        loaded = dict(self.input_pydantic_model.model_validate_json(data or "{}"))
+''', '''        if not data:
+            data = "{}"
+        loaded = dict(self.input_pydantic_model.model_validate_json(data))
 ''')])
